@@ -2,7 +2,7 @@
 # tools/run_all.sh [tier] : run every check sequentially, print one line per check
 cd "$(dirname "$0")/.."
 tier=${1:-quick}
-for id in C01 C02 C03 C04 C05 C06 C07 C08 C09 C10 C11 C12 C13 C14 C15 C16 C17 C18; do
+for id in ${CHECKS:-C01 C02 C03 C04 C05 C06 C07 C08 C09 C10 C11 C12 C13 C14 C15 C16 C17 C18}; do
   s=$(date +%s)
   ./check $id --tier $tier > /tmp/runall_$id.log 2>&1; rc=$?
   echo "$id rc=$rc $(( $(date +%s) - s ))s $(tail -1 /tmp/runall_$id.log | cut -c1-160)"
